@@ -6,6 +6,8 @@ def key(r):
     ex = r.get("exchange", {})
     up, req = ex.get("up", {}), ex.get("req", {})
     why = r["why"]
+    if req.get("slow") and ("status" in why or "request" in why or "not parsable" in why):
+        return "C01:slow-request-body:%s" % req.get("body")
     if "not parsable" in why or "stray" in why or "body differs" in why:
         if ex.get("undone") and up.get("fr") != "chunked":
             return "C02:decompressed-unknown-length-no-framing"
